@@ -132,6 +132,19 @@ def trig_weighted_uncrossed_with_dependent(case):
     return any(F[j - 1]["kind"] == "d" and any(g in wu for g in F[j - 1]["deps"]) for j in ids)
 
 
+def trig_partially_crossed_weighted(case):
+    """a weighted non-derived factor that is in some but not all crossings of a block without Nest"""
+    xs = _crossings(case["block"])
+    if len(xs) < 2 or any(b["op"] == "Nest" for b in _all_blocks(case["block"])):
+        return False
+    for i, f in enumerate(_factors(case)):
+        if f["kind"] == "b" and any(w > 1 for w in f["w"]):
+            n = sum(1 for X in xs if (i + 1) in X)
+            if 0 < n < len(xs):
+                return True
+    return False
+
+
 def trig_has_minimum_trials(case):
     return _has_con(case, "MinimumTrials")
 
@@ -170,6 +183,7 @@ def trig_any(case):
 
 
 TRIGGERS = {
+    "partially_crossed_weighted": trig_partially_crossed_weighted,
     "weighted_uncrossed_with_dependent": trig_weighted_uncrossed_with_dependent,
     "derived_of_simple_derived": trig_derived_of_simple_derived,
     "crossed_within_of_derived": trig_crossed_within_of_derived,
